@@ -193,6 +193,8 @@ def err_class(text):
 def judge(m, real, host, hp=False):
     """compare the model result m with the real result for one host; None = agree / not judged, else text"""
     st = real["status"]
+    if m["kind"] in ("resource", "modelcrash"):
+        return None          # strings / arrays beyond the size the model builds: memory exhaustion is not judged
     if st.startswith("sig") or st in ("exc", "lost") or st.startswith("exit"):
         return f"crash: real engine ended with {st} under {host}"
     unjudged = m["status"] == "fuel" or m["kind"].startswith("unsupported") or m["kind"] in ("resource", "valdepth")
